@@ -52,6 +52,7 @@ def c04(A, ctx, tier):
     blockpen.r_proxfoc_block(A, ctx, dict(floor=12), rule="R-NONNEG-BLOCK", parts=("nonneg",))
     blockpen.r_inf_block(A, ctx, dict(floor=10))
     blockpen.r_gsupp(A, ctx, dict(floor=80))
+    blockpen.r_fallback_step(A, ctx, dict(floor=9))
     ctx.assume("finiteness under overflow/cancellation is not decided")
     return dict(explanation="feasibility at every stopping point: only prox outputs, "
                 "guarded extrapolations, line-search combinations and the intercept are "
